@@ -40,7 +40,7 @@ AS_TRANS = 23456
 ADD_PATH = [(1, 1), (2, 1), (1, 4), (2, 4), (1, 128), (2, 128), (1, 85), (2, 85)]
 NEXTHOP = [(1, 1, 2), (1, 2, 2), (1, 4, 2), (1, 128, 2)]
 # families ExaBGP knows (subset) + the ADD-PATH ones
-FAMILIES = [(1, 1), (1, 2), (1, 4), (1, 128), (1, 133), (1, 134), (1, 85), (2, 1), (2, 2), (2, 4), (2, 128), (2, 133), (2, 85), (25, 65), (25, 70), (16388, 71)]
+FAMILIES = [(1, 1), (1, 2), (1, 4), (1, 85), (1, 128), (1, 5), (1, 133), (1, 134), (1, 132), (2, 1), (2, 2), (2, 4), (2, 85), (2, 128), (2, 5), (2, 133), (2, 134), (25, 65), (25, 70), (16388, 71), (16388, 72), (1, 73), (2, 73)]  # Family.all_families()
 ODD_FAMILIES = [(3, 1), (1, 200), (65535, 255), (0, 0), (1, 0)]
 UNKNOWN_CODES = [0, 3, 4, 7, 66, 67, 71, 72, 74, 78, 100, 127, 129, 130, 184, 200, 255]
 HOSTCHARS = 'abcdefghijklmnopqrstuvwxyzABCDEFGHIJKLMNOPQRSTUVWXYZ0123456789'
@@ -52,6 +52,15 @@ def trans(asn: int) -> int:
 
 # ---------------------------------------------------------------------------------------------
 # generators
+
+
+# UTF-8 edge cases for the hostname / software-version strings (bytes.decode('utf-8') is strict)
+UTF8_TRICKY = [
+    '7f', 'c280', 'dfbf', 'e0a080', 'efbfbf', 'ed9fbf', 'ee8080', 'f0908080', 'f48fbfbf', 'e282ac',  # valid
+    '80', 'bf', 'c0', 'c080', 'c1bf', 'c2', 'c27f', 'c2c0', 'e08080', 'e09fbf', 'e0a0', 'e0a07f', 'eda080', 'edbfbf',
+    'f08080', 'f08f8080', 'f0908080'[:-2], 'f4908080', 'f5808080', 'f8888080', 'ff', 'fe', 'e1', 'e180', 'f1', 'f18080',
+    'ef', 'efbf', '41c2', '41e282', 'c28041', 'e282ac41', 'f09f988041', '41ff41',
+]  # fmt: skip
 
 
 def gen_hostname(rng, maxlen: int = 64) -> str:
@@ -94,6 +103,26 @@ def gen_cfg(rng, thorough: bool) -> dict:
     c['sw'] = int(rng.random() < 0.3)
     c['ll'] = int(rng.random() < 0.2)
     c['ms'] = int(rng.random() < 0.08)
+    if rng.random() < 0.15:
+        textable(rng, c)
+    return c
+
+
+TEXT_FAMILIES = [(1, 1), (1, 2), (1, 4), (1, 85), (1, 128), (1, 5), (1, 133), (1, 134), (2, 1), (2, 4), (2, 85), (2, 128), (2, 5), (2, 133), (2, 134), (25, 65), (25, 70), (16388, 71), (16388, 72), (1, 73), (2, 73)]
+
+
+def textable(rng, c: dict) -> dict:
+    """Bend a configuration to what the configuration-file grammar can say, and mark it for the
+    text path (real Configuration parser instead of NeighborSettings)."""
+    c['fam'] = [f for f in c['fam'] if tuple(f) in TEXT_FAMILIES] or [[1, 1]]
+    c['aps'] = [f for f in c['aps'] if tuple(f) in TEXT_FAMILIES]
+    c['nhs'] = [t for t in c['nhs'] if tuple(t) in NEXTHOP]
+    c['pl'] = []
+    if c['gr'] is not None:
+        c['gr'] = min(c['gr'], 4095)
+    if not c['pas']:
+        c['pas'] = 65001
+    c['_text'] = 1
     return c
 
 
@@ -416,6 +445,35 @@ def nontrivial_rule(impl_out: str, theirs_set: str | None) -> bool:
     return n['fam'] != 'e' and (n['asn4'] == '1' or n['rf'] != 'absent' or n['sz'] == '65535' or n['nh'] != 'e' or ':1' in n['aps'] or ':1' in n['apr'])
 
 
+def case_failures(c: dict, body: bytes, io: str, m_rfc: str, theirs_set: str | None, expect_param: int | None) -> list[tuple[dict, str]]:
+    """Oracles 2 and 3 on one case: (canonical form, description) for every clause that fails."""
+    # --- oracle 2: injected faults are refused with the subcode that names them
+    fails: list[tuple[dict, str]] = []
+    if len(body) < 10:
+        if io != 'err 1 2':
+            fails.append(({'field': 'refusal', 'class': 'short-open-not-1/2'}, f'OPEN body of {len(body)} octets answered with {io}, RFC 4271 6.1: 1/2'))
+    elif body[0] != 4:
+        if io != 'err 2 1':
+            fails.append(({'field': 'refusal', 'class': 'version-not-2/1'}, f'version {body[0]} answered with {io}, RFC 4271 6.2: 2/1'))
+    elif expect_param is not None:
+        pt = expect_param
+        if pt == 2:
+            pass
+        elif not io.startswith('err '):
+            fails.append(({'field': 'refusal', 'class': 'unsupported-optional-parameter-accepted'}, f'optional parameter type {pt} accepted: {io}'))
+        elif pt == 1:
+            if io not in ('err 2 5', 'err 2 4'):
+                fails.append(({'field': 'refusal', 'class': 'authentication-parameter-not-2/5'}, f'authentication parameter answered with {io}'))
+        elif io != 'err 2 4':
+            fails.append(({'field': 'refusal', 'class': 'unsupported-optional-parameter-' + io[4:].replace(' ', '/')}, f'unrecognised optional parameter type {pt} answered with {io}; RFC 4271 6.2: MUST be 2/4 (Unsupported Optional Parameters)'))
+    elif m_rfc.startswith('err ') and not io.startswith('err '):
+        fails.append(({'field': 'refusal', 'class': 'undecodable-open-accepted'}, f'the reference decoder refuses this OPEN ({m_rfc}), the implementation accepts it'))
+    # --- oracle 3: the parameters in force are the RFC function of the two OPENs
+    if theirs_set is not None:
+        fails += oracle(c, io, m_rfc, theirs_set)
+    return fails
+
+
 def load_corpus() -> list[dict]:
     d = common.VERIF / 'corpus' / PROP
     out = []
@@ -469,6 +527,13 @@ def build_cases(ctx: Ctx, n_random: int, first: bool) -> list[dict]:
                 continue
             groups = '/'.join(caps + pad)
             add(c, f'nego enc {fmt} {fixed[0]} {fixed[1]} {fixed[2]} {fixed[3]} {groups}', f'boundary-{target}-fmt{fmt}')
+    # UTF-8 edge cases in the strings of hostname / software version (invalid ones: the encoder's
+    # well-formedness flag is 0 because of the string only; the TLV framing is still right)
+    for seq in UTF8_TRICKY if first else rng.sample(UTF8_TRICKY, 8):
+        c = negorig.default_cfg()
+        which = rng.choice(['hn:%s:', 'hn:61:%s', 'sw:%s', 'hn:%s:%s'])
+        cap = which.replace('%s', seq)
+        add(c, f'nego enc {rng.choice(["0", "1"])} 4 65001 90 33686018 mp:1:1/{cap}/asn4:65001', 'utf8-edge', allow_unwf=True)
     # our own OPEN around the RFC 9072 switch: many families
     for k in (28, 29, 30, 31, 32) if first else ():
         c = negorig.default_cfg()
@@ -503,7 +568,7 @@ def build_cases(ctx: Ctx, n_random: int, first: bool) -> list[dict]:
             if o == 'bad-op':
                 raise common.Infra(f'driver rejected an encoder line: {case["enc"]}')
             hx, wf = o.split(' ')
-            if wf != '1':
+            if wf != '1' and not case.get('allow_unwf'):
                 ctx.count('gen:not-encodable')
                 continue
             body = bytes.fromhex(hx) if hx != '-' else b''
@@ -560,7 +625,7 @@ def run(ctx: Ctx) -> None:
         '(4-octet AS, refresh, extended message, extended next hop, ADD-PATH in one direction) is in force on both sides; '
         'distinct = distinct (configuration, peer body)'
     )
-    total = 20000 if ctx.tier == 'quick' else 400000
+    total = 12000 if ctx.tier == 'quick' else 400000
     chunk = 4000
     state: dict = {'seen': set(), 'wf_ours': [0, 0]}
     done_n = 0
@@ -587,7 +652,7 @@ def run_chunk(ctx: Ctx, cases: list[dict], state: dict) -> None:
         try:
             impl = negorig.run_impl(c, body)
         except Exception as e:  # the rig itself must not fail: building the neighbor / our OPEN raised
-            impl = {'out': f'rig-crash:{type(e).__name__}:{e}', 'ours': b'', 'words': negorig.cfg_words(c), 'ours_set': '', 'neg': None}
+            impl = {'out': f'rig-crash:{type(e).__name__}:{e}', 'ours': b'', 'words': negorig.cfg_words(c), 'ours_set': '', 'neg': None, 'via': 'settings', 'eff': c}
         case['impl'] = impl
         ctx.evaluations += 1
         case['li'] = len(lines)
@@ -608,7 +673,8 @@ def run_chunk(ctx: Ctx, cases: list[dict], state: dict) -> None:
         ctx.count('peer-params-len:' + ('-' if len(body) < 10 else ('ext' if body[9] == 255 and len(body) > 10 and body[10] == 255 else str(min(body[9] // 32 * 32, 224)) + '+')))
         ctx.count('our-open:' + ('extended' if impl['ours'][9:11] == b'\xff\xff' else 'standard'))
         ctx.count('local-as:' + ('>65535' if c['las'] > 65535 else '<=65535'))
-        replay = {'cfg': c, 'body': body.hex(), 'origin': case['origin']}
+        ctx.count('config-via:' + impl['via'] + ('' if impl['via'] == 'text' or not c.get('_text') else '(text refused by the parser)'))
+        replay = {'cfg': c, 'body': body.hex(), 'origin': case['origin'], 'expect_param': case.get('expect_param')}
         if io.startswith('rig-crash'):
             ctx.disagreements.append(Disagreement('nego-rig', replay, None, io))
             continue
@@ -654,34 +720,12 @@ def run_chunk(ctx: Ctx, cases: list[dict], state: dict) -> None:
                 fixed = [int(x) for x in parts[1:5]]
                 want_fixed = [4, trans(c['las']), c['hold'], c['rid']]
                 got = norm_capset(' '.join(parts[5:]))
-                want = expected_capset(c)
+                want = expected_capset(impl['eff'])
                 if fixed != want_fixed or got != want:
                     diff = {k: (got.get(k), want.get(k)) for k in want if got.get(k) != want.get(k)}
                     ctx.failures.append(Failure('open-pair', {'field': 'our-open', 'class': 'advertises-' + '+'.join(sorted(diff)) if diff else 'fixed-fields'}, replay, f'our OPEN does not advertise exactly the configuration: fixed {fixed} want {want_fixed}; (got, want) {diff}'))
-        # --- oracle 2: injected faults are refused with the subcode that names them
-        fails: list[tuple[dict, str]] = []
-        if len(body) < 10:
-            if io != 'err 1 2':
-                fails.append(({'field': 'refusal', 'class': 'short-open-not-1/2'}, f'OPEN body of {len(body)} octets answered with {io}, RFC 4271 6.1: 1/2'))
-        elif body[0] != 4:
-            if io != 'err 2 1':
-                fails.append(({'field': 'refusal', 'class': 'version-not-2/1'}, f'version {body[0]} answered with {io}, RFC 4271 6.2: 2/1'))
-        elif 'expect_param' in case:
-            pt = case['expect_param']
-            if pt == 2:
-                pass
-            elif not io.startswith('err '):
-                fails.append(({'field': 'refusal', 'class': 'unsupported-optional-parameter-accepted'}, f'optional parameter type {pt} accepted: {io}'))
-            elif pt == 1:
-                if io not in ('err 2 5', 'err 2 4'):
-                    fails.append(({'field': 'refusal', 'class': 'authentication-parameter-not-2/5'}, f'authentication parameter answered with {io}'))
-            elif io != 'err 2 4':
-                fails.append(({'field': 'refusal', 'class': 'unsupported-optional-parameter-' + io[4:].replace(' ', '/')}, f'unrecognised optional parameter type {pt} answered with {io}; RFC 4271 6.2: MUST be 2/4 (Unsupported Optional Parameters)'))
-        elif m_rfc.startswith('err ') and not io.startswith('err '):
-            fails.append(({'field': 'refusal', 'class': 'undecodable-open-accepted'}, f'the reference decoder refuses this OPEN ({m_rfc}), the implementation accepts it'))
-        # --- oracle 3: the parameters in force are the RFC function of the two OPENs
+        fails = case_failures(c, body, io, m_rfc, impl.get('theirs_set'), case.get('expect_param'))
         if 'theirs_set' in impl:
-            fails += oracle(c, io, m_rfc, impl['theirs_set'])
             ctx.count('peer:' + ('consistent-as' if consistent_peer(impl['theirs_set']) else 'inconsistent-as'))
             if not valid_sr(impl['theirs_set']):
                 ctx.count('peer:addpath-octet>3')
@@ -699,20 +743,16 @@ def replay(path: str) -> int:
     r = data['replay']
     c, body = r['cfg'], bytes.fromhex(r['body'])
     impl = negorig.run_impl(c, body)
+    bh = body.hex() or '-'
+    out = common.run_driver('drv_nego', [f'nego run {bh} {impl["words"]}', f'nego rfc {c["las"]} {c["pas"]} {c["rid"]} {impl["ours"].hex() or "-"} {bh}'])
     print('configuration :', impl['words'])
     print('our OPEN      :', impl['ours'].hex())
     print('peer OPEN     :', body.hex())
     print('implementation:', impl['out'])
-    try:
-        bh = body.hex() or '-'
-        out = common.run_driver('drv_nego', [f'nego run {bh} {impl["words"]}', f'nego rfc {c["las"]} {c["pas"]} {c["rid"]} {impl["ours"].hex()} {bh}'])
-        print('model         :', out[0])
-        print('RFC function  :', out[1])
-        fails = oracle(c, impl['out'], out[1], impl.get('theirs_set', '')) if 'theirs_set' in impl else []
-    except common.Infra as e:
-        print('driver unavailable:', e)
-        fails = []
+    print('model         :', out[0])
+    print('RFC function  :', out[1])
+    fails = case_failures(c, body, impl['out'], out[1], impl.get('theirs_set'), r.get('expect_param'))
     for canon, what in fails:
-        print('FAILS:', canon, what)
-    print('what          :', data.get('what'))
-    return 1 if fails or data.get('canon', {}).get('field') in ('refusal', 'exception', 'our-open') else 0
+        print('FAILS         :', json.dumps(canon), '-', what)
+    print('holds         :', not fails)
+    return 1 if fails else 0
